@@ -161,6 +161,7 @@ type Path struct {
 	log       []string
 	pollFired bool
 	ufCalls   map[string][][2]*Term
+	ufCallsN  map[string][]ufCall
 	fnSeen      map[*ssa.Function]bool
 	onceDone    map[*value]bool
 	fmtDepth    int
